@@ -23,7 +23,7 @@ import (
 )
 
 func init() {
-	register(&Prop{ID: "C21", Module: "V.C21.Check", Gen: c21Gen, Quick: 3200, Thorough: 20000, Shard: 230})
+	register(&Prop{ID: "C21", Module: "V.C21.Check", Gen: c21Gen, Quick: 3200, Thorough: 40000, Shard: 230})
 }
 
 var c21Kinds = map[string]string{
